@@ -377,6 +377,40 @@ obj = A()
 f = obj.m
 keep = [A, B, obj]
 ''', 'f', 'sigtools'),
+    # __signature__ = as_forged on a CLASS that is inspected itself (the descriptor runs with instance None)
+    ('class-with-as-forged-inspect', '''
+@specifiers.forwards_to_function(inner)
+class K(object):
+    __signature__ = specifiers.as_forged
+    def __init__(self, a, *args, **kwargs): pass
+f = K
+''', 'f', 'inspect'),
+    ('class-with-as-forged-sigtools', '''
+@specifiers.forwards_to_function(inner)
+class K(object):
+    __signature__ = specifiers.as_forged
+    def __init__(self, a, *args, **kwargs): pass
+f = K
+''', 'f', 'sigtools'),
+    # ... and on its callable instances (the documented use)
+    ('callable-instance-with-as-forged', '''
+class K(object):
+    __signature__ = specifiers.as_forged
+    @specifiers.forwards_to_method('method')
+    def __call__(self, x, *args, **kwargs): return self.method(*args, **kwargs)
+    def method(self, a, b, c): return a
+f = K()
+keep = [K]
+''', 'f', 'inspect'),
+    # the callee is a functools.lru_cache object (carries __wrapped__, has no signature of its own once stripped)
+    ('lru-cached-callee', '''
+cached = functools.lru_cache(maxsize=None)(inner)
+def f(a, *args, **kwargs): return cached(*args, **kwargs)
+f.implementation = cached          # (reachable through f.__dict__: part of what must stay as it was)
+''', 'f', 'sigtools'),
+    ('lru-cached-object-itself', '''
+f = functools.lru_cache(maxsize=None)(inner2)
+''', 'f', 'sigtools'),
     ('kwoargs-function', '''
 @modifiers.kwoargs('b')
 def f(a, b=2, *args, **kwargs): return inner(*args, **kwargs)
